@@ -103,10 +103,11 @@ def json_safe(o):
     return o
 
 
-def gen_election(rng, size="small", district=False, roles=None, min_reporting=8, unexpected=True, plain=False):
+def gen_election(rng, size="small", district=False, roles=None, min_reporting=8, unexpected=True, plain=False, n_states=None):
     """size: small (15-40 units) | medium (40-120). plain=True: every unit reports or is partial (complete feed)."""
     e = Election()
     ns = rng.choice([1, 1, 2, 3]) if size == "small" else rng.choice([2, 3, 4])
+    ns = n_states or ns
     e.states = rng.sample(STATE_CODES, ns)
     e.unit_type = "precinct-district" if district else rng.choice(["precinct", "county"])
     e.office = "H" if district else "G"
